@@ -476,25 +476,6 @@ fn show_result_chk(r: Result<QueryResult, String>, is_read: bool, diag: &mut Vec
 
 static COUNTER: AtomicU64 = AtomicU64::new(0);
 
-fn run_raw(line: &str) -> String {
-    let dir = std::env::temp_dir().join(format!("axv-hist-raw-{}-{}", std::process::id(), COUNTER.fetch_add(1, Ordering::SeqCst)));
-    let _ = std::fs::remove_dir_all(&dir);
-    std::fs::create_dir_all(&dir).unwrap();
-    let db = Database::create(dir.join("db.axm"), DBConfig::default()).unwrap();
-    let mut outs = Vec::new();
-    let mut diag = Vec::new();
-    for sql in line[4..].split(';') {
-        let sql = sql.trim();
-        if sql.is_empty() { continue; }
-        let r = db.execute(sql).map_err(|e| e.to_string());
-        let is_sel = sql.to_ascii_lowercase().starts_with("select");
-        if let Err(e) = &r { outs.push(format!("ERR<{}>", e.chars().take(90).collect::<String>())); } else { outs.push(show_result(r, is_sel, &mut diag)); }
-    }
-    drop(db);
-    let _ = std::fs::remove_dir_all(&dir);
-    outs.join(" | ")
-}
-
 /// The library prints to stdout on some DDL statements (`CREATE UNIQUE INDEX`); stdout is the line protocol of
 /// `axh exec`, so it points to /dev/null while a case runs.
 struct QuietStdout {
@@ -530,9 +511,6 @@ impl Drop for QuietStdout {
 
 pub fn run_case(line: &str) -> String {
     let _quiet = QuietStdout::new();
-    if line.starts_with("raw ") && std::env::var("AXH_RAWSQL").is_ok() {
-        return run_raw(line);
-    }
     let Some((setup, ops)) = parse_case(line) else { return "bad-op".into() };
     let dir = std::env::temp_dir().join(format!("axv-hist-{}-{}", std::process::id(), COUNTER.fetch_add(1, Ordering::SeqCst)));
     let _ = std::fs::remove_dir_all(&dir);
@@ -1312,10 +1290,321 @@ fn gen_c03(rng: &mut Rng, out: &mut Vec<Case>) {
     }
 }
 
+// ------------------------------------------------------------------------------------------------ C07 families
+//
+// Constraint-heavy histories (selected by AXH_PROP=C07).  One table `u` with a key declared in one of eight ways,
+// sequential autocommit statements and session blocks; after every commit `db sel u` shows the committed contents
+// (both sides print PROPFAIL when they violate a constraint).  Clean region: no UPDATE of a key column, no two open
+// transactions touching the same key, no delete + re-insert of a key inside one transaction, no statement failing
+// after its first row inside a session, no open reader while a non-key UPDATE is pending.
+
+struct C07Schema {
+    setup_tab: String,       // tab=… (+ con=… placed by the caller)
+    con: Option<String>,     // con=… added after or before the rows
+    multi: bool,             // key is (a, b) instead of (k)
+    key_nullable: bool,      // the key is UNIQUE (NULL allowed), not PRIMARY KEY
+    v_not_null: bool,
+    tag: &'static str,
+}
+
+fn c07_schema(rng: &mut Rng) -> C07Schema {
+    match rng.below(10) {
+        0 | 1 => C07Schema { setup_tab: "tab=u(k:big*,v:int!)".into(), con: None, multi: false, key_nullable: true, v_not_null: true, tag: "decl_unique_col" },
+        2 => C07Schema { setup_tab: "tab=u(k:big,v:int/^k)".into(), con: None, multi: false, key_nullable: false, v_not_null: false, tag: "decl_pk_create" },
+        3 => C07Schema { setup_tab: "tab=u(a:big,b:int,v:int/a+b)".into(), con: None, multi: true, key_nullable: true, v_not_null: false, tag: "decl_unique_multi" },
+        4 => C07Schema { setup_tab: "tab=u(a:big,b:int,v:int!/^a+b)".into(), con: None, multi: true, key_nullable: false, v_not_null: true, tag: "decl_pk_multi" },
+        5 => C07Schema { setup_tab: "tab=u(k:big,v:int)".into(), con: Some("con=u:k".into()), multi: false, key_nullable: true, v_not_null: false, tag: "decl_alter_unique" },
+        6 => C07Schema { setup_tab: "tab=u(k:big,v:int)".into(), con: Some("con=u:@k".into()), multi: false, key_nullable: true, v_not_null: false, tag: "decl_unique_index" },
+        7 => C07Schema { setup_tab: "tab=u(k:big,v:int)".into(), con: Some("con=u:^k".into()), multi: false, key_nullable: false, v_not_null: false, tag: "decl_alter_pk" },
+        8 => C07Schema { setup_tab: "tab=u(a:big,b:int,v:int)".into(), con: Some("con=u:@a+b".into()), multi: true, key_nullable: true, v_not_null: false, tag: "decl_unique_index_multi" },
+        _ => C07Schema { setup_tab: "tab=u(k:big*,v:int)".into(), con: Some("con=u:!v".into()), multi: false, key_nullable: true, v_not_null: true, tag: "decl_alter_not_null" },
+    }
+}
+
+/// key number n as column values: single → `n`; multi → `a b` with a = n / 3 + 1, b = n % 3 + 1
+fn c07_key(sc: &C07Schema, n: i64) -> String {
+    if sc.multi { format!("{} {}", n / 3 + 1, n % 3 + 1) } else { n.to_string() }
+}
+fn c07_where(_sc: &C07Schema, n: i64) -> String {
+    // rows are addressed through the non-key column v = 100 + n: a predicate on the key column would be answered
+    // through the unique index (an access-path question, C06), here every statement scans the table
+    format!("where v eq {}", 100 + n)
+}
+fn c07_row(sc: &C07Schema, n: i64) -> String {
+    format!("{} {}", c07_key(sc, n), 100 + n)
+}
+
+fn gen_c07(rng: &mut Rng, out: &mut Vec<Case>) {
+    let sc = c07_schema(rng);
+    let n_init = rng.range(1, 3);
+    let mut setup = sc.setup_tab.clone();
+    let con_first = rng.chance(1, 2);
+    if let (Some(c), true) = (&sc.con, con_first) {
+        setup.push_str(&format!(" {}", c));
+    }
+    for n in 1..=n_init {
+        setup.push_str(&format!(" row=u:{}", c07_row(&sc, n).replace(' ', ",")));
+    }
+    if let (Some(c), false) = (&sc.con, con_first) {
+        setup.push_str(&format!(" {}", c));
+    }
+    let mut live: Vec<i64> = (1..=n_init).collect();
+    let mut dead: Vec<i64> = Vec::new();
+    let mut next_key = n_init + 1;
+    let mut ops: Vec<String> = Vec::new();
+    let mut extra: Vec<&str> = vec!["c07", sc.tag];
+    // which finding feature (at most one) this case carries
+    let feature = match rng.below(100) {
+        0..=71 => "",
+        72..=79 => "update_unique_col",
+        80..=85 => "concurrent_same_key",
+        86..=90 => "reinsert_in_txn_rollback",
+        91..=93 => "rollback_key_update",
+        94..=96 => "key_update_null_or_multi",
+        _ => "failed_stmt_partial",
+    };
+    let n_steps = rng.range(4, 10);
+    let feature_at = rng.below(n_steps as u64) as i64;
+    for step in 0..n_steps {
+        if step == feature_at && !feature.is_empty() {
+            match feature {
+                "update_unique_col" if !sc.multi && !live.is_empty() => {
+                    // update away from a key, then the old key and the new key are inserted
+                    let k = *rng.pick(&live);
+                    let nk = next_key + 20;
+                    ops.push(format!("db upd u k set {} where v eq {}", nk, 100 + k));
+                    ops.push("db sel u".into());
+                    ops.push(format!("db ins u {} 7", k));
+                    ops.push(format!("db ins u {} 8", nk));
+                    ops.push("db sel u".into());
+                    if rng.chance(1, 2) && live.len() > 1 {
+                        // update TO an existing key: must be rejected
+                        let other = *live.iter().find(|x| **x != k).unwrap();
+                        ops.push(format!("db upd u k set {} where v eq {}", other, 100 + k));
+                        ops.push("db sel u".into());
+                    }
+                    extra.push("update_unique_col");
+                }
+                "concurrent_same_key" => {
+                    let k = next_key;
+                    next_key += 1;
+                    let e1 = gen_end(rng);
+                    let e2 = gen_end(rng);
+                    ops.push(format!(
+                        "s1 begin ; s2 begin ; s1 ins u {} ; s2 ins u {} ; s1 {} ; db sel u ; s2 {} ; db sel u",
+                        c07_row(&sc, k), c07_row(&sc, k), e1, e2
+                    ));
+                    extra.push("concurrent_same_key");
+                }
+                "reinsert_in_txn_rollback" if !live.is_empty() => {
+                    let k = *rng.pick(&live);
+                    ops.push(format!(
+                        "s1 begin ; s1 del u {} ; s1 ins u {} ; s1 sel u ; s1 {} ; db sel u ; db ins u {} ; db sel u",
+                        c07_where(&sc, k), c07_row(&sc, k), if rng.chance(2, 3) { "rollback" } else { "commit" }, c07_row(&sc, k)
+                    ));
+                    extra.push("reinsert_deleted_unique_key");
+                }
+                "rollback_key_update" if !sc.multi && !live.is_empty() => {
+                    let k = *rng.pick(&live);
+                    let nk = next_key + 30;
+                    ops.push(format!(
+                        "s1 begin ; s1 upd u k set {} where v eq {} ; s1 {} ; db sel u ; db ins u {} 5 ; db ins u {} 6 ; db sel u",
+                        nk, 100 + k, if rng.chance(1, 2) { "rollback" } else { "drop" }, nk, k
+                    ));
+                    extra.push("update_unique_col");
+                    extra.push("rollback_key_update");
+                }
+                "key_update_null_or_multi" if sc.key_nullable => {
+                    if sc.multi {
+                        let k = next_key;
+                        next_key += 1;
+                        ops.push(format!("db ins u {}", c07_row(&sc, k)));
+                        ops.push(format!("db upd u b set 9 where v eq {}", 100 + k));
+                        ops.push(format!("db upd u a set 9 where v eq {}", 100 + k));
+                    } else {
+                        ops.push("db ins u null 55".into());
+                        ops.push("db ins u null 56".into());
+                        ops.push(format!("db upd u k set {} where v eq 55", next_key + 40));
+                        ops.push(format!("db upd u k set {} where v eq 56", next_key + 40));
+                    }
+                    ops.push("db sel u".into());
+                    extra.push("update_unique_col");
+                    extra.push("key_update_null_or_multi");
+                }
+                "failed_stmt_partial" if !live.is_empty() => {
+                    let k = *rng.pick(&live);
+                    let f = next_key;
+                    next_key += 1;
+                    ops.push(format!(
+                        "s1 begin ; s1 ins u {} , {} ; s1 sel u ; s1 {} ; db sel u",
+                        c07_row(&sc, f), c07_row(&sc, k), gen_end(rng)
+                    ));
+                    extra.push("failed_stmt");
+                    extra.push("failed_stmt_partial");
+                }
+                _ => {}
+            }
+            continue;
+        }
+        match rng.below(12) {
+            0 | 1 | 2 => {
+                // fresh key
+                let k = next_key;
+                next_key += 1;
+                live.push(k);
+                ops.push(format!("db ins u {}", c07_row(&sc, k)));
+                ops.push("db sel u".into());
+            }
+            3 | 4 => {
+                // duplicate of a live key: rejected
+                if let Some(&k) = live.first() {
+                    let k = if rng.chance(1, 2) { k } else { *rng.pick(&live) };
+                    ops.push(format!("db ins u {} 7", c07_key(&sc, k)));
+                    ops.push("db sel u".into());
+                    extra.push("dup_key_insert");
+                }
+            }
+            5 => {
+                // delete, later maybe re-inserted by another transaction
+                if !live.is_empty() {
+                    let k = *rng.pick(&live);
+                    live.retain(|x| *x != k);
+                    dead.push(k);
+                    ops.push(format!("db del u {}", c07_where(&sc, k)));
+                    ops.push("db sel u".into());
+                }
+            }
+            6 => {
+                // re-insert of a key deleted by an earlier, committed transaction
+                if !dead.is_empty() {
+                    let k = dead.remove(0);
+                    live.push(k);
+                    ops.push(format!("db ins u {}", c07_row(&sc, k)));
+                    ops.push("db sel u".into());
+                    extra.push("reinsert_after_committed_delete");
+                }
+            }
+            7 => {
+                // NULL: in the key (allowed for UNIQUE, refused for PRIMARY KEY), or in a NOT NULL column
+                if rng.chance(1, 2) {
+                    if sc.multi {
+                        ops.push("db ins u 1 null 77".into());
+                        ops.push("db ins u 1 null 78".into());
+                    } else {
+                        ops.push("db ins u null 77".into());
+                        ops.push("db ins u null 78".into());
+                    }
+                    extra.push("null_in_key");
+                } else {
+                    let k = next_key;
+                    next_key += 1;
+                    ops.push(format!("db ins u {} null", c07_key(&sc, k)));
+                    if !sc.v_not_null {
+                        live.push(k);
+                    }
+                    extra.push("null_in_value");
+                }
+                ops.push("db sel u".into());
+            }
+            8 => {
+                // non-key update, autocommit (NOT NULL violation when set to null)
+                if !live.is_empty() && !sc.multi {
+                    let k = *rng.pick(&live);
+                    if rng.chance(1, 3) && sc.v_not_null {
+                        ops.push(format!("db upd u v set null where v eq {}", 100 + k));
+                    } else {
+                        // same value again: a new version of the row, the contents stay addressable by v
+                        ops.push(format!("db upd u v set {} where v eq {}", 100 + k, 100 + k));
+                    }
+                    ops.push("db sel u".into());
+                    extra.push("nonkey_update");
+                }
+            }
+            9 | 10 => {
+                // a session: inserts and deletes of keys nobody else touches, then commit / rollback / drop
+                let k1 = next_key;
+                let k2 = next_key + 1;
+                next_key += 2;
+                let end = gen_end(rng);
+                let mut blk = format!("s1 begin ; s1 ins u {} ; s1 ins u {}", c07_row(&sc, k1), c07_row(&sc, k2));
+                let mut deleted = None;
+                if !live.is_empty() && rng.chance(1, 2) {
+                    let k = *rng.pick(&live);
+                    blk.push_str(&format!(" ; s1 del u {}", c07_where(&sc, k)));
+                    deleted = Some(k);
+                }
+                if rng.chance(1, 2) {
+                    // duplicate of its own insert: rejected (first row → no partial effect)
+                    blk.push_str(&format!(" ; s1 ins u {} 9", c07_key(&sc, k1)));
+                }
+                blk.push_str(&format!(" ; s1 sel u ; s1 {}", end));
+                ops.push(blk);
+                ops.push("db sel u".into());
+                if end == "commit" {
+                    live.push(k1);
+                    live.push(k2);
+                    if let Some(k) = deleted {
+                        live.retain(|x| *x != k);
+                        dead.push(k);
+                    }
+                }
+                extra.push("session_block");
+            }
+            _ => {
+                // batch: two fresh keys, sometimes ending in a duplicate (whole batch refused)
+                let k1 = next_key;
+                let k2 = next_key + 1;
+                next_key += 2;
+                if rng.chance(1, 2) && !live.is_empty() {
+                    ops.push(format!("db batch ins u {} & ins u {} & ins u {} 9", c07_row(&sc, k1), c07_row(&sc, k2), c07_key(&sc, live[0])));
+                } else {
+                    ops.push(format!("db batch ins u {} & ins u {}", c07_row(&sc, k1), c07_row(&sc, k2)));
+                    live.push(k1);
+                    live.push(k2);
+                }
+                ops.push("db sel u".into());
+            }
+        }
+    }
+    let line = format!("hist {} | {}", setup, ops.join(" ; "));
+    let mut c = finish(line, Family::Clean, &extra);
+    // C07's feature → known-finding tag (the generic analysis of `finish` does not know the index features)
+    let kf = if extra.contains(&"reinsert_deleted_unique_key") {
+        Some("kf:reinsert_deleted_unique_key")
+    } else if extra.contains(&"concurrent_same_key") {
+        Some("kf:concurrent_same_key")
+    } else if extra.contains(&"update_unique_col") {
+        Some("kf:update_unique_col")
+    } else {
+        None
+    };
+    c.tags.retain(|t| t != "clean" && !t.starts_with("kf:") && t != "kf2" && t != "nt");
+    match kf {
+        Some(k) => c.tags.push(k.to_string()),
+        None if extra.contains(&"failed_stmt_partial") => c.tags.push("kf:failed_stmt_partial".to_string()),
+        // autocommit updates of a non-key column with no transaction open behave as specified
+        None => c.tags.push("clean".to_string()),
+    }
+    // non-trivial for C07: some statement or commit has to be decided by a constraint
+    if extra.iter().any(|e| {
+        matches!(*e, "dup_key_insert" | "null_in_key" | "null_in_value" | "update_unique_col" | "concurrent_same_key"
+            | "reinsert_deleted_unique_key" | "reinsert_after_committed_delete" | "failed_stmt" | "session_block")
+    }) {
+        c.tags.push("nt".to_string());
+    }
+    out.push(c);
+}
+
 impl Engine for HistEngine {
     fn gen_cases(&self, rng: &mut Rng, tier: Tier) -> Vec<Case> {
         let mut out = Vec::new();
         let quick = tier == Tier::Quick;
+        if std::env::var("AXH_PROP").as_deref() == Ok("C07") {
+            for _ in 0..(if quick { 1500 } else { 15000 }) {
+                gen_c07(rng, &mut out);
+            }
+            return out;
+        }
         // (1) program pairs, all interleavings when there are at most 20, else 20 sampled ones
         for _ in 0..(if quick { 40 } else { 150 }) {
             let n = rng.range(1, 2) as usize;
